@@ -224,6 +224,14 @@ def gen_cases(ctx):
                 lines.append('>>> # xdoctest: -SKIP')
             lines += s.render('ps2', 0)
         cases.append(('\n'.join(lines), stmts, enabled, {}))
+    # what the code writes is recorded character for character, also carriage returns (no wants: a want cannot spell them)
+    for _ in range(60 if ctx.tier == 'quick' else 1000):
+        n = rng.randint(2, 6)
+        stmts = [gendoc.Stmt(rng.choice(['assign', 'print', 'print_cr', 'print_cr', 'print2', 'for', 'try']), 10 + i) for i in range(n)]
+        lines = []
+        for s in stmts:
+            lines += s.render(rng.choice(['ps1', 'ps2']), 0)
+        cases.append(('\n'.join(lines), stmts, [True] * n, {}))
     return cases
 
 
